@@ -26,6 +26,8 @@ Definition fq_cl := cmovznz_ok_lin _ fq_cmovznz_spec.
 Definition fr_al := addcarryx_ok_lin _ fr_addcarryx_spec.
 Definition fr_sl := subborrowx_ok_lin _ fr_subborrowx_spec.
 Definition fr_cl := cmovznz_ok_lin _ fr_cmovznz_spec.
+Definition fp_al := addcarryx_ok_lin _ fp_addcarryx_spec.
+Definition fp_sl := subborrowx_ok_lin _ fp_subborrowx_spec.
 Definition fp_cl := cmovznz_ok_lin _ fp_cmovznz_spec.
 
 Ltac selectznz_tac f cl :=
@@ -146,6 +148,49 @@ Proof.
     + exfalso. clear - S T RT HA HB Hq. lia.
     + apply mod_eq_1. { clear - S T RT HA HB. lia. } clear - S T. lia.
   - split_bit k6. all: split_bit k14.
+    + exfalso. clear - EB V15. lia.
+    + apply mod_eq_0. { clear - S T RL RT Hq. lia. } clear - S T. lia.
+    + exfalso. clear - EB V15. lia.
+    + exfalso. clear - EB V15. lia.
+Qed.
+
+(* fp_add (12 limbs), as translated: the same statement and the same argument as for the 8-limb fields *)
+Lemma fp_add_spec a b : limbs_ok 12 a -> limbs_ok 12 b -> ev a < Certs.p -> ev b < Certs.p ->
+  limbs_ok 12 (fp_add a b) /\ ev (fp_add a b) = (ev a + ev b) mod Certs.p.
+Proof.
+  intros Ha Hb. destruct (limbs_ok_12 a Ha) as (a0&a1&a2&a3&a4&a5&a6&a7&a8&a9&a10&a11&->&?&?&?&?&?&?&?&?&?&?&?&?).
+  destruct (limbs_ok_12 b Hb) as (b0&b1&b2&b3&b4&b5&b6&b7&b8&b9&b10&b11&->&?&?&?&?&?&?&?&?&?&?&?&?). clear Ha Hb.
+  intros HA HB. cbv beta iota delta [ev fold_right] in HA, HB.
+  match goal with |- limbs_ok 12 ?oo /\ ev ?oo = ?rr => pose (Q := fun o => limbs_ok 12 o /\ ev o = rr); change (Q oo) end.
+  cbv beta iota delta [fp_add nth].
+  do 12 step2 fp_al. eval_closed. do 13 step2 fp_sl. do 12 step1 fp_cl.
+  subst Q; cbv beta iota delta [ev fold_right limbs_ok length].
+  repeat match goal with H : _ /\ _ |- _ => destruct H end.
+  assert (S : v + 2^32*v0 + 2^64*v1 + 2^96*v2 + 2^128*v3 + 2^160*v4 + 2^192*v5 + 2^224*v6 + 2^256*v7 + 2^288*v8 + 2^320*v9 + 2^352*v10 + 2^384*k10 = (a0 + 2^32*(a1 + 2^32*(a2 + 2^32*(a3 + 2^32*(a4 + 2^32*(a5 + 2^32*(a6 + 2^32*(a7 + 2^32*(a8 + 2^32*(a9 + 2^32*(a10 + 2^32*(a11 + 2^32*0)))))))))))) + (b0 + 2^32*(b1 + 2^32*(b2 + 2^32*(b3 + 2^32*(b4 + 2^32*(b5 + 2^32*(b6 + 2^32*(b7 + 2^32*(b8 + 2^32*(b9 + 2^32*(b10 + 2^32*(b11 + 2^32*0))))))))))))) by (clear HA HB; lia).
+  assert (T : v11 + 2^32*v12 + 2^64*v13 + 2^96*v14 + 2^128*v15 + 2^160*v16 + 2^192*v17 + 2^224*v18 + 2^256*v19 + 2^288*v20 + 2^320*v21 + 2^352*v22 - 2^384*k22 = v + 2^32*v0 + 2^64*v1 + 2^96*v2 + 2^128*v3 + 2^160*v4 + 2^192*v5 + 2^224*v6 + 2^256*v7 + 2^288*v8 + 2^320*v9 + 2^352*v10 - Certs.p) by (clear HA HB S; unfold Certs.p; lia).
+  assert (RL : 0 <= v + 2^32*v0 + 2^64*v1 + 2^96*v2 + 2^128*v3 + 2^160*v4 + 2^192*v5 + 2^224*v6 + 2^256*v7 + 2^288*v8 + 2^320*v9 + 2^352*v10 < 2^384) by (clear HA HB S T; lia).
+  assert (RT : 0 <= v11 + 2^32*v12 + 2^64*v13 + 2^96*v14 + 2^128*v15 + 2^160*v16 + 2^192*v17 + 2^224*v18 + 2^256*v19 + 2^288*v20 + 2^320*v21 + 2^352*v22 < 2^384) by (clear HA HB S T RL; lia).
+  assert (RA : 0 <= a0 + 2^32*(a1 + 2^32*(a2 + 2^32*(a3 + 2^32*(a4 + 2^32*(a5 + 2^32*(a6 + 2^32*(a7 + 2^32*(a8 + 2^32*(a9 + 2^32*(a10 + 2^32*(a11 + 2^32*0)))))))))))) by (clear HA HB S T RL RT; lia).
+  assert (RB : 0 <= b0 + 2^32*(b1 + 2^32*(b2 + 2^32*(b3 + 2^32*(b4 + 2^32*(b5 + 2^32*(b6 + 2^32*(b7 + 2^32*(b8 + 2^32*(b9 + 2^32*(b10 + 2^32*(b11 + 2^32*0)))))))))))) by (clear HA HB S T RL RT RA; lia).
+  split. { split. reflexivity. subst. repeat constructor; destruct (k23 =? 0); lia. }
+  replace (r + 2^32*(r0 + 2^32*(r1 + 2^32*(r2 + 2^32*(r3 + 2^32*(r4 + 2^32*(r5 + 2^32*(r6 + 2^32*(r7 + 2^32*(r8 + 2^32*(r9 + 2^32*(r10 + 2^32*0))))))))))))
+    with (if k23 =? 0 then v11 + 2^32*v12 + 2^64*v13 + 2^96*v14 + 2^128*v15 + 2^160*v16 + 2^192*v17 + 2^224*v18 + 2^256*v19 + 2^288*v20 + 2^320*v21 + 2^352*v22 else v + 2^32*v0 + 2^64*v1 + 2^96*v2 + 2^128*v3 + 2^160*v4 + 2^192*v5 + 2^224*v6 + 2^256*v7 + 2^288*v8 + 2^320*v9 + 2^352*v10) by (subst; destruct (k23 =? 0); ring).
+  set (A := a0 + 2^32*(a1 + 2^32*(a2 + 2^32*(a3 + 2^32*(a4 + 2^32*(a5 + 2^32*(a6 + 2^32*(a7 + 2^32*(a8 + 2^32*(a9 + 2^32*(a10 + 2^32*(a11 + 2^32*0)))))))))))) in *.
+  set (B := b0 + 2^32*(b1 + 2^32*(b2 + 2^32*(b3 + 2^32*(b4 + 2^32*(b5 + 2^32*(b6 + 2^32*(b7 + 2^32*(b8 + 2^32*(b9 + 2^32*(b10 + 2^32*(b11 + 2^32*0)))))))))))) in *.
+  set (L := v + 2^32*v0 + 2^64*v1 + 2^96*v2 + 2^128*v3 + 2^160*v4 + 2^192*v5 + 2^224*v6 + 2^256*v7 + 2^288*v8 + 2^320*v9 + 2^352*v10) in *.
+  set (TL := v11 + 2^32*v12 + 2^64*v13 + 2^96*v14 + 2^128*v15 + 2^160*v16 + 2^192*v17 + 2^224*v18 + 2^256*v19 + 2^288*v20 + 2^320*v21 + 2^352*v22) in *.
+  clearbody A B L TL.
+  match goal with H : v23 - 2 ^ 32 * k23 = _ |- _ => rename H into EB end.
+  assert (Hq : 0 < Certs.p < 2^384) by (unfold Certs.p; lia).
+  assert (K6 : 0 <= k10 <= 1) by (split; assumption). assert (K14 : 0 <= k22 <= 1) by (split; assumption).
+  assert (K15 : 0 <= k23 <= 1) by (split; assumption). assert (V15 : 0 <= v23 < 2 ^ 32) by (split; assumption).
+  clear - S T RL RT RA RB HA HB EB Hq K6 K14 K15 V15. unfold Certs.p in *. split_bit k23; cbn [Z.eqb].
+  - split_bit k10. all: split_bit k22.
+    + apply mod_eq_1. { clear - S T RT HA HB. lia. } clear - S T. lia.
+    + exfalso. clear - EB V15. lia.
+    + exfalso. clear - S T RT HA HB Hq. lia.
+    + apply mod_eq_1. { clear - S T RT HA HB. lia. } clear - S T. lia.
+  - split_bit k10. all: split_bit k22.
     + exfalso. clear - EB V15. lia.
     + apply mod_eq_0. { clear - S T RL RT Hq. lia. } clear - S T. lia.
     + exfalso. clear - EB V15. lia.
